@@ -122,6 +122,7 @@ public:
    std::vector<std::string> departedRoots;    // roots of sessions that have left (must never reappear)
    int hostileConn = -1; int witnessConn = -1; int witnessPingTag = 0; int64_t witnessPingSentAtStep = -1; int witnessOutstanding = -1;
    bool inQuiesce = false;
+   std::set<std::string> dontCare;   // paths last written or removed QUIETLY: subscribers were deliberately not told, so mirrors may differ there until the next loud write
    bool skipReplicaCompare = false;   // C13 runs that remove indexed children QUIETLY: replicas legitimately go stale, only the server-side index invariants are checked
    bool recordContent = false; std::vector<std::string> contentLog;   // C10's history-independence differential: everything the clients were sent, in order
    static ServerSim * s_cur;
@@ -264,6 +265,7 @@ public:
       {
          int32 opid; if (msg()->FindInt32(kOpIdField, opid).IsOK()) {Sess(c)->QueueMarker(opid); (void) msg()->RemoveName(kOpIdField);}
       }
+      if (orc.mirror) NoteQuietEffects(c, *msg());
       if (orc.isolation) {snapBefore.clear(); SnapshotTree(snapBefore); othersBefore.clear(); SnapshotOthers(connIdx, othersBefore);}
       if ((orc.route)&&((w < (uint32) BEGIN_PR_COMMANDS)||(w > (uint32) END_PR_COMMANDS))) ExpectRouted(c, msg);
    }
@@ -280,6 +282,36 @@ public:
       if (orc.isolation) CheckIsolation(c);
    }
 
+   // quiet writes / removals (documented relaxation of C04): the affected paths become "don't care" for mirrors; a loud write clears the mark
+   void NoteQuietEffects(Conn * c, const Message & m)
+   {
+      if (m.what == PR_COMMAND_SETDATA)
+      {
+         SetDataNodeFlags flags; (void) m.FindFlat<SetDataNodeFlags>(PR_NAME_FLAGS, flags);
+         const bool quiet = flags.IsBitSet(SETDATANODE_FLAG_QUIET);
+         for (MessageFieldNameIterator it = m.GetFieldNameIterator(B_MESSAGE_TYPE); it.HasData(); it++)
+         {
+            const std::string rel = it.GetFieldName()(); if ((rel.empty())||(rel[0] == '/')) continue;
+            std::string p = c->root;
+            const std::vector<std::string> cl = match::SplitOn(rel, '/');
+            for (size_t i=0; i<cl.size(); i++)
+            {
+               p += "/" + cl[i];
+               if (quiet) {dontCare.insert(p); st.inc("p.quiet_write");}
+               else if ((i+1 == cl.size())&&(!flags.IsBitSet(SETDATANODE_FLAG_DONTCREATENODE))&&(!flags.IsBitSet(SETDATANODE_FLAG_DONTOVERWRITEDATA))) dontCare.erase(p);     // the leaf is (re)written loudly and unconditionally: subscribers get its current value
+               // (an intermediate node that a loud command creates is announced; one that exists already is untouched: its mark stays)
+            }
+         }
+      }
+      else if ((m.what == PR_COMMAND_REMOVEDATA)&&(m.HasName(PR_NAME_REMOVE_QUIETLY)))
+      {
+         SimSession * s = AnySess(); if (s == NULL) return;
+         std::vector<std::string> keys; const String * ks; for (uint32 i=0; m.FindString(PR_NAME_KEYS, i, &ks).IsOK(); i++) keys.push_back(ks->Cstr());
+         std::vector<std::string> roots;
+         WalkTree(s->Root(), [&](DataNode &, const std::string & p) {for (auto & k : keys) if (match::RelPathMatch(c->root, k, p)) roots.push_back(p);});   // (filters ignored: over-approximation, errs towards don't-care)
+         WalkTree(s->Root(), [&](DataNode &, const std::string & p) {for (auto & r : roots) if ((p == r)||(p.compare(0, r.size()+1, r + "/") == 0)) {dontCare.insert(p); st.inc("p.quiet_removal");}});
+      }
+   }
    // server-side model of parameters that the oracles need: subscriptions, !Self, default route
    void ApplyToServerModel(Conn * c, const Message & m, int depth)
    {
@@ -678,17 +710,18 @@ public:
                const bool own = (t.first == c->root)||(t.first.compare(0, c->root.size()+1, c->root + "/") == 0);
                if ((own)&&(!c->self)) continue;
                if (hostileOwned(t.first)) continue;   // a hostile owner may write and remove quietly: its nodes are "don't care" for mirrors
+               if (dontCare.count(t.first)) continue;
                bool m = false; for (auto & sp : c->clientSubs) if ((match::PathMatch(sp.first, t.first))&&(sp.second.filt.EvalMsg(payloads[t.first]))) m = true;
                if (m) exp[t.first] = t.second;
             }
             std::map<std::string, std::string> got;
-            for (auto & t : c->mirror) {const bool own = (t.first == c->root)||(t.first.compare(0, c->root.size()+1, c->root + "/") == 0); if ((own)&&(!c->self)) continue; if (hostileOwned(t.first)) continue; got[t.first] = t.second;}
+            for (auto & t : c->mirror) {const bool own = (t.first == c->root)||(t.first.compare(0, c->root.size()+1, c->root + "/") == 0); if ((own)&&(!c->self)) continue; if (hostileOwned(t.first)) continue; if (dontCare.count(t.first)) continue; got[t.first] = t.second;}
             // deliberate, narrow relaxation: entries a quiet subscription was never told about are not required (completeness only for nodes written after it)
             if (exp != got)
             {
                std::string d = "client " + I(c->idx) + " (" + c->root + (c->self ? ", reflect-to-self" : "") + ") mirror differs from the server's tree:";
                std::string cls;
-               for (auto & t : exp) {if (!got.count(t.first)) {if (QuietOnly(c, t.first)) continue; d += " MISSING " + t.first; if (cls.empty()) cls = "mirror_missing";} else if (got[t.first] != t.second) {d += " STALE " + t.first; if (cls.empty()) cls = "mirror_stale";}}
+               for (auto & t : exp) {if (!got.count(t.first)) {if (QuietOnly(c, t.first, payloads[t.first])) continue; d += " MISSING " + t.first; if (cls.empty()) cls = "mirror_missing";} else if (got[t.first] != t.second) {d += " STALE " + t.first; if (cls.empty()) cls = "mirror_stale";}}
                for (auto & t : got) if (!exp.count(t.first)) {d += " EXTRA " + t.first; if (cls.empty()) cls = "mirror_extra";}
                if (!cls.empty()) {d += "; subscriptions:"; for (auto & sp : c->clientSubs) d += " [" + sp.first + " " + sp.second.filt.Str() + "]"; if (c->everEmptyClause) cls += "_empty_clause_subscription"; else if (c->everAliased) cls += "_aliased_subscriptions"; Fail(cls, d);}
             }
@@ -714,9 +747,9 @@ public:
       }
       if (orc.route) CheckRoutedAtQuiescence();
    }
-   bool QuietOnly(Conn * c, const std::string & path)   // every matching subscription of c is a quiet one
+   bool QuietOnly(Conn * c, const std::string & path, const Message * payload)   // every subscription of c that selects this node (pattern and filter) is a quiet one
    {
-      bool any = false; for (auto & sp : c->clientSubs) if (match::PathMatch(sp.first, path)) {if (!sp.second.quiet) return false; any = true;}
+      bool any = false; for (auto & sp : c->clientSubs) if ((match::PathMatch(sp.first, path))&&(sp.second.filt.EvalMsg(payload))) {if (!sp.second.quiet) return false; any = true;}
       return any;
    }
    size_t routedChecked = 0;
